@@ -893,9 +893,17 @@ func opC14(fields []string) string {
 		}
 	}
 	src := "find all @/" + pattern + "/"
+	if len(pattern)%3 == 0 {
+		// history: sources the front end rejects AFTER it has opened unnamed groups are compiled first; whatever state
+		// a failed parse leaves behind must not reach the next Compile (group numbers start at 1 again)
+		for _, bad := range []string{"find all @/(a)(?=b)/", "find all @/(a)(b/", "find all @/(x)(y)/ oops = ", "find all @/((q))/ 'unending"} {
+			safeCompile(bad)
+		}
+	}
+	// Compile first: it is the call a user makes, and it must not profit from a parse made just before it
+	v, class := safeCompile(src)
 	parse := opParse([]string{hx(src)})
 	out := "PARSE " + parse
-	v, class := safeCompile(src)
 	runs := []string{}
 	if v == nil {
 		out += "\tCOMPILE " + class
